@@ -25,9 +25,10 @@ type Profile struct {
 }
 
 type gen struct {
-	r  *rand.Rand
-	pf Profile
-	nt int
+	store bool
+	r     *rand.Rand
+	pf    Profile
+	nt    int
 }
 
 // Gen generates a program.
@@ -88,6 +89,7 @@ func Gen(r *rand.Rand, drivers []evt.Driver, pf Profile) *Program {
 			}
 		}
 	}
+	g.store = c.Store
 	n := pf.MinOps + r.IntN(pf.MaxOps-pf.MinOps+1)
 	for i := 0; i < n; i++ {
 		p.Ops = append(p.Ops, g.op(0, true))
@@ -117,6 +119,10 @@ func (g *gen) reg(depth int) *Reg {
 		rg.Async = r.IntN(4) == 0
 	}
 	rg.Seq = r.IntN(5) == 0
+	if g.store && r.IntN(4) == 0 {
+		rg.Replay, rg.Ctx = true, false
+		rg.Class = g.class(false)
+	}
 	switch r.IntN(8) {
 	case 0:
 		rg.Filter = 1
@@ -197,7 +203,7 @@ func (e *Engine) logOp(op *Op) {
 	k := fmt.Sprintf("%s@%d", op.K, e.depth)
 	if op.K == Sub {
 		s := op.Reg
-		k += fmt.Sprintf(":c%v,o%v,a%v,s%v,f%d,p%d,x%d", s.Ctx, s.Once, s.Async, s.Seq, s.Filter, s.PanicKind, s.CancelAt)
+		k += fmt.Sprintf(":c%v,o%v,a%v,s%v,f%d,p%d,x%d,r%v", s.Ctx, s.Once, s.Async, s.Seq, s.Filter, s.PanicKind, s.CancelAt, s.Replay)
 	}
 	if op.K == Pub {
 		k += fmt.Sprintf(":u%v,pc%v,d%v", op.UseCtx, op.PreCancelled, op.Deadline)
